@@ -89,6 +89,20 @@ struct LlistFamily : Family {
       push(REPLACE_DESTRUCTOR, L, 0);
     }
   }
+  void pre_witness(Instance *ip, const Op &op, Ctx &ctx) override
+  {
+    LInst *in = (LInst *)ip;
+    if (op.c == INSERT_BEFORE && op.b > 0) ctx.witness("insert_before_middle");
+    if (op.c == INSERT_AFTER && (size_t)op.b + 1 < in->m[op.a].size()) ctx.witness("insert_after_middle");
+    if (op.c == REPLACE) ctx.witness("replaced_value");
+    if (op.c == REPLACE_DESTRUCTOR) ctx.witness("destructor_replaced");
+    if (op.c == MV_FIRST || op.c == MV_LAST) {
+      long L = op.a / 100, dst = op.b;
+      if (L != dst) ctx.witness("moved_between_lists");
+      if (L != dst && !in->m[dst].empty() && in->m[L].size() > 1) ctx.witness("moved_middle_between_nonempty_lists");
+    }
+  }
+
   ares_llist_node_t *node_at(LInst *in, int L, size_t pos)
   {
     ares_llist_node_t *n = ares_llist_node_first(in->l[L]);
@@ -199,8 +213,6 @@ struct LlistFamily : Family {
         in->m[L].insert(nth(in->m[L], op.c == INSERT_BEFORE ? p : p + 1), d->id);
         if (!nd || ares_llist_node_val(nd) != d) ctx.fail("retval-mismatch", "insert did not return a node holding the value");
         ctx.outcome(op.c == INSERT_BEFORE ? (p == 0 ? "at-head" : "in-middle") : (p + 1 == n ? "at-tail" : "in-middle"));
-        if (op.c == INSERT_BEFORE && p > 0) ctx.witness("insert_before_middle");
-        if (op.c == INSERT_AFTER && p + 1 < n) ctx.witness("insert_after_middle");
         break;
       }
       case DESTROY:
@@ -231,7 +243,6 @@ struct LlistFamily : Family {
           expd.push_back({ id, in->cb[L] });
           *nth(in->m[L], p) = nd2->id;
           drop(in, id);
-          ctx.witness("replaced_value");
         }
         ctx.outcome("ok");
         break;
@@ -252,8 +263,6 @@ struct LlistFamily : Family {
         if (op.c == MV_FIRST) in->m[dst].push_front(id);
         else in->m[dst].push_back(id);
         ctx.outcome(L == dst ? "same-list" : "other-list");
-        if (L != dst) ctx.witness("moved_between_lists");
-        if (L != dst && in->m[dst].size() > 1 && in->m[L].size() > 0) ctx.witness("moved_middle_between_nonempty_lists");
         break;
       }
       case CLEAR: {
@@ -270,7 +279,6 @@ struct LlistFamily : Family {
         in->cb[L] = !in->cb[L];
         ares_llist_replace_destructor(in->l[L], in->cb[L] ? d1 : d0);
         ctx.outcome("ok");
-        ctx.witness("destructor_replaced");
         break;
       }
     }
